@@ -29,7 +29,7 @@ ASSUMPTIONS = [
 ]
 
 SCHEMA = {
-    "m": [("api", 7), ("mt", 3), ("fs", progs.N_FS)],
+    "m": [("api", 9), ("mt", 3), ("fs", progs.N_FS)],
     "a": [
         ("style", 10),
         ("typed", 2),
